@@ -388,6 +388,10 @@ static size_t ZSTD_seekable_loadSeekTable(ZSTD_seekable* zs)
 
     {   U32 const numFrames = MEM_readLE32(zs->inBuff);
         U32 const sizePerEntry = 8 + (checksumFlag?4:0);
+        /* beyond this limit the 32-bit size computations below wrap around,
+         * and a damaged count would pass the frame size check */
+        if (numFrames > ZSTD_SEEKABLE_MAXFRAMES) return ERROR(frameIndex_tooLarge);
+        {
         U32 const tableSize = sizePerEntry * numFrames;
         U32 const frameSize = tableSize + ZSTD_seekTableFooterSize + ZSTD_SKIPPABLEHEADERSIZE;
 
@@ -446,6 +450,7 @@ static size_t ZSTD_seekable_loadSeekTable(ZSTD_seekable* zs)
             zs->seekTable.tableLen = numFrames;
             zs->seekTable.checksumFlag = checksumFlag;
             return 0;
+        }
         }
     }
 }
